@@ -483,6 +483,191 @@ def r7_own_columns(repo: Repo, rep):
             rep.check(R, not raw and named > 0, fi.site(), fi.fq, "coordinates selected by list(self.space.keys())", f"raw tensor used: {sorted(set(raw))[:2]}", f"raw {sorted(set(raw))[:2]}")
 
 
+def _fold(e: ast.AST) -> Optional[float]:
+    """numeric value of a constant expression (torch.tensor(k) wrappers stripped)"""
+    while isinstance(e, ast.Call) and attr_chain(e.func) in ("torch.tensor", "torch.as_tensor", "float") and e.args:
+        e = e.args[0]
+    if isinstance(e, ast.Constant) and isinstance(e.value, (int, float)) and not isinstance(e.value, bool):
+        return float(e.value)
+    if isinstance(e, ast.UnaryOp) and isinstance(e.op, (ast.USub, ast.UAdd)):
+        v = _fold(e.operand)
+        return None if v is None else (-v if isinstance(e.op, ast.USub) else v)
+    if isinstance(e, ast.BinOp) and isinstance(e.op, (ast.Add, ast.Sub, ast.Mult, ast.Div, ast.Pow)):
+        a, b = _fold(e.left), _fold(e.right)
+        if a is None or b is None:
+            return None
+        try:
+            return {ast.Add: a + b, ast.Sub: a - b, ast.Mult: a * b, ast.Div: a / b if b else None, ast.Pow: a ** b}[type(e.op)]
+        except Exception:
+            return None
+    return None
+
+
+SLACK = 1e-6  # ~8 float32 epsilons: the least absolute slack a test on coordinates computed in float32 needs to accept exact boundary points
+
+
+def r8_side_tolerance(repo: Repo, rep, rule_id="R-C05-8"):
+    R = rep.rule(rule_id, "boundary side tests compare computed coordinates with a constant c with an absolute slack of at least 1e-6: isclose needs "
+                 "atol + rtol*|c| >= 1e-6 (the relative part vanishes at c = 0), range tests of barycentric coordinates admit [0 - t, 1 + t]", floor=14,
+                 why="barycentric coordinates of the boundary sampler's own points are computed in float32 (resolution 1.2e-7): with the default "
+                     "atol=1e-8 a comparison with 0 rejects them - not contained in their own boundary, no side found, NaN normal")
+    bd = repo.cls("problem.domains.domain.BoundaryDomain")
+    for ci in repo.subclasses(bd, strict=True):
+        # own methods reachable from _contains / normal
+        reach: Dict[str, FuncInfo] = {}
+        work = [m for m in ("_contains", "normal") if ci.methods.get(m) is not None]
+        role: Dict[str, Set[str]] = {}
+        for m in work:
+            role.setdefault(m, set()).add(m)
+        while work:
+            m = work.pop()
+            fi = repo.resolve_method(ci, m)
+            if fi is None or fi.cls is None or fi.cls.name in ("Domain", "BoundaryDomain") or m in reach:
+                continue
+            reach[m] = fi
+            for n in ast.walk(fi.node):
+                if isinstance(n, ast.Call) and isinstance(n.func, ast.Attribute) and attr_chain(n.func.value) == "self":
+                    role.setdefault(n.func.attr, set()).update(role.get(m, ()))
+                    work.append(n.func.attr)
+        if not any(isinstance(n, ast.Call) and (attr_chain(n.func) or "").endswith("isclose") for fi in reach.values() for n in ast.walk(fi.node)):
+            continue
+        # barycentric names and constant helper arguments, propagated through the helper calls to a fix-point
+        bary: Dict[str, Set[str]] = {m: set() for m in reach}
+        consts: Dict[Tuple[str, str], Optional[Set[float]]] = {}
+        for m, fi in reach.items():
+            for n in ast.walk(fi.node):
+                if isinstance(n, ast.Assign) and isinstance(n.value, ast.Call) and isinstance(n.value.func, ast.Attribute) and n.value.func.attr == "_solve_lgs":
+                    for t in n.targets:
+                        bary[m].update(x.id for x in ast.walk(t) if isinstance(x, ast.Name))
+
+        def is_bary(e, m):
+            if isinstance(e, ast.Name):
+                return e.id in bary[m]
+            if isinstance(e, ast.BinOp) and isinstance(e.op, (ast.Add, ast.Sub)):
+                return is_bary(e.left, m) and is_bary(e.right, m)
+            return False
+        # names bound by a loop over a literal sequence of tuples stand for each of the listed expressions
+        alts: Dict[str, Dict[str, List[ast.AST]]] = {m: {} for m in reach}
+        for m, fi in reach.items():
+            single = {}
+            for n in ast.walk(fi.node):
+                if isinstance(n, ast.Assign) and len(n.targets) == 1 and isinstance(n.targets[0], ast.Name):
+                    single.setdefault(n.targets[0].id, []).append(n.value)
+            for n in ast.walk(fi.node):
+                if not isinstance(n, (ast.For, ast.comprehension)):
+                    continue
+                it = n.iter
+                if isinstance(it, ast.Name) and len(single.get(it.id, ())) == 1:
+                    it = single[it.id][0]
+                if not isinstance(it, (ast.Tuple, ast.List)):
+                    continue
+                tg = n.target
+                names = [tg] if isinstance(tg, ast.Name) else list(tg.elts) if isinstance(tg, (ast.Tuple, ast.List)) else []
+                for k, t in enumerate(names):
+                    if not isinstance(t, ast.Name):
+                        continue
+                    if isinstance(tg, ast.Name):
+                        alts[m][t.id] = list(it.elts)
+                    elif all(isinstance(e, (ast.Tuple, ast.List)) and len(e.elts) == len(names) for e in it.elts):
+                        alts[m][t.id] = [e.elts[k] for e in it.elts]
+
+        def expand(a, m):
+            return alts[m].get(a.id, [a]) if isinstance(a, ast.Name) else [a]
+        changed = True
+        while changed:
+            changed = False
+            for m, fi in reach.items():
+                for n in ast.walk(fi.node):
+                    if not (isinstance(n, ast.Call) and isinstance(n.func, ast.Attribute) and attr_chain(n.func.value) == "self" and n.func.attr in reach):
+                        continue
+                    callee = reach[n.func.attr]
+                    ps = callee.params[1:]
+                    pairs = list(zip(ps, n.args)) + [(k.arg, k.value) for k in n.keywords if k.arg in ps]
+                    for pn, a0 in pairs:
+                        key = (callee.name, pn)
+                        options = expand(a0, m)
+                        if options and all(is_bary(a, m) for a in options) and pn not in bary[callee.name]:
+                            bary[callee.name].add(pn)
+                            changed = True
+                        for a in options:
+                            v = _fold(a)
+                            if v is not None:
+                                if key not in consts:
+                                    consts[key] = set()
+                                if consts[key] is not None and v not in consts[key]:
+                                    consts[key].add(v)
+                                    changed = True
+                            elif isinstance(a, ast.Name) and consts.get((m, a.id)):
+                                cur = consts.setdefault(key, set())
+                                if cur is not None and not consts[(m, a.id)] <= cur:
+                                    cur.update(consts[(m, a.id)])
+                                    changed = True
+                            elif consts.get(key) and not is_bary(a, m):
+                                consts[key] = None  # the same parameter also receives a non-constant: not decidable by constants
+                                changed = True
+        for m, fi in sorted(reach.items()):
+            rep.saw(fi)
+            for n in ast.walk(fi.node):
+                if isinstance(n, ast.Call) and (attr_chain(n.func) or "") in ("torch.isclose", "np.isclose", "numpy.isclose") and len(n.args) >= 2:
+                    cexpr = n.args[1]
+                    vals = None
+                    v = _fold(cexpr)
+                    inner = cexpr
+                    while isinstance(inner, ast.Call) and attr_chain(inner.func) in ("torch.tensor", "torch.as_tensor", "float") and inner.args:
+                        inner = inner.args[0]
+                    if v is not None:
+                        vals = {v}
+                    elif isinstance(inner, ast.Name) and consts.get((m, inner.id)):
+                        vals = consts[(m, inner.id)]
+                    if vals is None:
+                        continue  # compared with a run-time quantity (radius, interval end): a relative tolerance scales with it
+                    rt, at = kwarg(n, "rtol", 2), kwarg(n, "atol", 3)
+                    rtol = 1e-5 if rt is None else _fold(rt)
+                    atol = 1e-8 if at is None else _fold(at)
+                    for c in sorted(vals):
+                        label = f"isclose({dump(n.args[0])[:40]}, {c:g})"
+                        if rtol is None or atol is None:
+                            rep.undecided(R, fi.site(n), fi.fq, f"{label}: constant tolerances", f"rtol={dump(rt) if rt is not None else 'default'}, atol={dump(at) if at is not None else 'default'}")
+                            continue
+                        eff = atol + rtol * abs(c)
+                        rep.check(R, eff >= SLACK, fi.site(n), fi.fq, f"{label}: atol + rtol*|c| >= {SLACK:g}", f"effective tolerance {eff:g}", f"{label} tolerance {eff:g}")
+                if isinstance(n, ast.Compare) and len(n.ops) == 1 and isinstance(n.ops[0], (ast.LtE, ast.Lt, ast.GtE, ast.Gt)):
+                    # |b - c| <= t spelled out: the explicit form of isclose with atol = t, rtol = 0
+                    small, big = (n.left, n.comparators[0]) if isinstance(n.ops[0], (ast.LtE, ast.Lt)) else (n.comparators[0], n.left)
+                    inner = None
+                    if isinstance(small, ast.Call) and attr_chain(small.func) in ("torch.abs", "abs", "torch.absolute") and len(small.args) == 1:
+                        inner = small.args[0]
+                    elif isinstance(small, ast.Call) and isinstance(small.func, ast.Attribute) and small.func.attr in ("abs", "absolute") and not small.args:
+                        inner = small.func.value
+                    t = _fold(big)
+                    if inner is not None:
+                        subj = inner.left if isinstance(inner, ast.BinOp) and isinstance(inner.op, (ast.Sub, ast.Add)) and not is_bary(inner, m) else inner
+                        if is_bary(subj, m):
+                            label = f"|{dump(inner)[:40]}| <= t"
+                            if t is None:
+                                rep.undecided(R, fi.site(n), fi.fq, f"{label}: constant tolerance", dump(big)[:60])
+                            else:
+                                rep.check(R, t >= SLACK, fi.site(n), fi.fq, f"{label}: t >= {SLACK:g}", f"tolerance {t:g}", f"{label} tolerance {t:g}")
+                            continue
+                if isinstance(n, ast.Compare) and "_contains" in role.get(m, ()):
+                    terms = [n.left] + list(n.comparators)
+                    for a, op, b in zip(terms, n.ops, terms[1:]):
+                        if not isinstance(op, (ast.LtE, ast.GtE, ast.Lt, ast.Gt)):
+                            continue
+                        for subj, cst, subj_left in ((a, b, True), (b, a, False)):
+                            if not is_bary(subj, m):
+                                continue
+                            v = _fold(cst)
+                            if v is None:
+                                continue
+                            lower = (isinstance(op, (ast.GtE, ast.Gt)) and subj_left) or (isinstance(op, (ast.LtE, ast.Lt)) and not subj_left)
+                            label = f"{dump(subj)[:30]} {'>=' if lower else '<='} {v:g}"
+                            if lower and abs(v) < 0.5:
+                                rep.check(R, v <= -SLACK, fi.site(n), fi.fq, f"lower end of the unit range widened: bound <= -{SLACK:g}", f"`{dump(n)[:60]}`: bound {v:g}", f"range test {label}")
+                            elif not lower and abs(v - 1) < 0.5:
+                                rep.check(R, v >= 1 + SLACK, fi.site(n), fi.fq, f"upper end of the unit range widened: bound >= 1 + {SLACK:g}", f"`{dump(n)[:60]}`: bound {v:g}", f"range test {label}")
+
+
 def _roles_of(expr: ast.AST, roles: Dict[str, Set[str]]) -> Set[str]:
     out = set()
     for n in ast.walk(expr):
@@ -679,6 +864,7 @@ def run(repo: Repo, rep):
     r5_purity(repo, rep)
     r6_answer_shape(repo, rep)
     r7_own_columns(repo, rep)
+    r8_side_tolerance(repo, rep)
     from .c12 import r3_selection  # the name-based selection this property's idioms rely on
     r3_selection(repo, rep)
     from .c13 import r2_r3_mapping  # shape functions are evaluated with each row's own values: given names win over stored defaults
@@ -695,7 +881,12 @@ _T = "src/torchphysics/problem/domains/domainoperations/translate.py"
 _R = "src/torchphysics/problem/domains/domainoperations/rotate.py"
 _CI = "src/torchphysics/problem/domains/domain2D/circle.py"
 _IV = "src/torchphysics/problem/domains/domain1D/interval.py"
+_TRI = "src/torchphysics/problem/domains/domain2D/triangle.py"
+_PAR = "src/torchphysics/problem/domains/domain2D/parallelogram.py"
 MUTANTS = [
+    dict(id="C05-M40", file=_TRI, old="close_to_0 = torch.isclose(bary_coord1, torch.tensor(0.0), atol=1e-5)", new="close_to_0 = torch.isclose(bary_coord1, torch.tensor(0.0))", rule="R-C05-8", what="side test at 0 with the default atol"),
+    dict(id="C05-M41", file=_PAR, old="between_0_1 = torch.logical_and(-1e-5 <= bary_coord2, bary_coord2 <= 1 + 1e-5)", new="between_0_1 = torch.logical_and(0 <= bary_coord2, bary_coord2 <= 1)", rule="R-C05-8", what="exact range test in boundary membership"),
+    dict(id="C05-M42", file=_PAR, old="close_to_0 = torch.isclose(bary_coord1, torch.tensor(0.0), atol=1e-5)", new="close_to_0 = torch.abs(bary_coord1) <= 1e-8", rule="R-C05-8", what="explicit absolute test below float32 resolution"),
     dict(id="C05-M1", file=_U, old="        return torch.logical_or(in_a, in_b)", new="        return torch.logical_and(in_a, in_b)", rule="R-C05-1", what="union as and"),
     dict(id="C05-M2", file=_CU, old="        return torch.logical_and(in_a, torch.logical_not(in_b))", new="        return torch.logical_and(in_b, torch.logical_not(in_a))", rule="R-C05-1", what="cut operands swapped"),
     dict(id="C05-M3", file=_I, old="        on_a_part = torch.logical_and(on_a_bound, in_b)", new="        on_a_part = torch.logical_and(on_a_bound, torch.logical_not(in_b))", rule="R-C05-1", what="intersection boundary polarity"),
@@ -713,6 +904,8 @@ MUTANTS = [
     dict(id="C05-M12", file=_T, old="        translated_points = original_points + translate_values", new="        translated_points = original_points - translate_values", rule="R-C05-2", what="sampler push-forward sign"),
 ]
 TWINS = [
+    dict(id="C05-T40", file=_TRI, old="close_to_0 = torch.isclose(bary_coord1, torch.tensor(0.0), atol=1e-5)", new="close_to_0 = bary_coord1.abs() <= 1e-5", what="explicit absolute test with the same slack"),
+    dict(id="C05-T41", file=_PAR, old="between_0_1 = torch.logical_and(-1e-5 <= bary_coord2, bary_coord2 <= 1 + 1e-5)", new="slack = 1e-5\n        between_0_1 = torch.logical_and(bary_coord2 >= -1e-5, 1.00001 >= bary_coord2)", what="range test mirrored, folded constants"),
     dict(id="C05-T1", file=_CU, old="        return torch.logical_and(in_a, torch.logical_not(in_b))", new="        return torch.logical_not(torch.logical_or(torch.logical_not(in_a), in_b))", what="De Morgan"),
     dict(id="C05-T2", file=_I, old="        return torch.logical_and(in_a, in_b)\n\n    def _get_volume", new="        return in_b & in_a\n\n    def _get_volume", what="operator form, commuted"),
     dict(id="C05-T3", file=_U, old="        on_both = torch.logical_and(on_b_bound, on_a_bound)\n        on_a_part = torch.logical_and(on_a_bound, torch.logical_not(in_b))\n        on_b_part = torch.logical_and(on_b_bound, torch.logical_not(in_a))\n        return torch.logical_or(on_a_part, torch.logical_or(on_b_part, on_both))",
